@@ -20,6 +20,10 @@ Proof.
   - split; [eapply inv_step; eauto | eapply linv_step; eauto].
 Qed.
 
+(* the overlay adds nothing to the model *)
+Lemma overlay_conservative i s : Reach i s <-> exists o, ReachL i s o.
+Proof. split; [exact (reach_reachL i s) | intros [o R]; exact (reachL_reach i s o R)]. Qed.
+
 (* A state is quiescent when no actor has an enabled transition of its own: everybody is idle
    (all calls have returned) or suspended in its park.  Timer / cancel (`Fire`) and the start of
    new calls are the environment's. *)
@@ -170,3 +174,52 @@ Example race_somewhere :
   apc (A (fst r) 1%nat) = Idle /\ apc (A (fst r) 2%nat) = Idle /\ ares (A (fst r) 1%nat) = false /\
   cnt (fst r) = 1 /\ uposts (fst r) = 1 /\ succ (fst r) = 0.
 Proof. cbv zeta. split; [apply reachL_runL; constructor | vm_compute; repeat split; reflexivity]. Qed.
+
+(* non-vacuity of the quiescence statements: (a) a waiter is parked for good - quiescent, counter -1,
+   value 0 = init + posts - successes; (b) after the schedule of SemThm.sch everybody has returned
+   with one permit left - quiescent with permits available, nobody parked *)
+Definition sch_parked : list action := [Wait 1%nat false; Step 1%nat; Step 1%nat; Step 1%nat; Step 1%nat].
+Example parked_quiescent_somewhere :
+  let s := run (init 0) sch_parked in
+  Reach 0 s /\ Quiescent s /\ apc (A s 1%nat) = WW /\ parked (Bk s (ab (A s 1%nat))) = true /\
+  cnt s = -1 /\ Z.max (cnt s) 0 = 0 + uposts s - succ s.
+Proof.
+  cbv zeta. split; [apply reach_run; constructor|]. split; [|vm_compute; repeat split; reflexivity].
+  intro a. destruct a as [|[|a]]; vm_compute; reflexivity.
+Qed.
+Example permits_left_quiescent_somewhere :
+  let s := run (init 0) sch in
+  Reach 0 s /\ Quiescent s /\ 0 < 0 + uposts s - succ s /\ cnt s = 1 /\ (forall a, apc (A s a) = Idle).
+Proof.
+  cbv zeta. split; [apply reach_run; constructor|].
+  assert (I : forall a, apc (A (run (init 0) sch) a) = Idle).
+  { intro a. destruct a as [|[|[|[|a]]]]; vm_compute; reflexivity. }
+  split; [apply all_idle_quiescent; exact I|]. split; [vm_compute; reflexivity|]. split; [vm_compute; reflexivity | exact I].
+Qed.
+
+(* no lost wake-up, in EVERY reachable state (not only at quiescence): a suspended waiter whose blocker
+   has been handed a permit (flag stored) has already been given a reason to resume, or the agent that
+   popped it is at K3, about to deliver the token (Blocker::unpark) *)
+Theorem flagged_waiter_resumed_or_token_in_flight i s a : 0 <= i -> Reach i s ->
+  apc (A s a) = WW -> unp (Bk s (ab (A s a))) = true ->
+  reason (Bk s (ab (A s a))) <> None \/ exists g, apc (A s g) = K3 /\ aw (A s g) = ab (A s a).
+Proof.
+  intros Hi R W U. destruct (reach_reachL _ _ R) as [o RL]. destruct (linv_reach _ _ _ Hi RL) as [HI HL].
+  pose proof (IA _ HI a) as Ha. unfold ainv in Ha. rewrite W in Ha. destruct Ha as (_ & _ & _ & _ & _ & _ & Ow & _).
+  destruct (IL4 _ _ HL _ U) as [D|[K1 K2]].
+  - left. assert (Ob : ab (A s (own s (ab (A s a)))) = ab (A s a)) by (unfold own; rewrite Ow; reflexivity).
+    destruct (IL5 _ _ HL _ D Ob) as [L _]. unfold own in L. rewrite Ow in L. exact (L W).
+  - right. exists (ag o (ab (A s a))). split; assumption.
+Qed.
+(* ... and a waiter about to park (before its token check) on a flagged blocker finds the token or the agent is at K3 *)
+Theorem flagged_prepark_token_or_in_flight i s a : 0 <= i -> Reach i s ->
+  apc (A s a) = WP -> unp (Bk s (ab (A s a))) = true ->
+  tok (Bk s (ab (A s a))) = true \/ exists g, apc (A s g) = K3 /\ aw (A s g) = ab (A s a).
+Proof.
+  intros Hi R W U. destruct (reach_reachL _ _ R) as [o RL]. destruct (linv_reach _ _ _ Hi RL) as [HI HL].
+  pose proof (IA _ HI a) as Ha. unfold ainv in Ha. rewrite W in Ha. destruct Ha as (_ & _ & _ & _ & _ & _ & Ow & _).
+  destruct (IL4 _ _ HL _ U) as [D|[K1 K2]].
+  - left. assert (Ob : ab (A s (own s (ab (A s a)))) = ab (A s a)) by (unfold own; rewrite Ow; reflexivity).
+    destruct (IL5 _ _ HL _ D Ob) as [_ L]. unfold own in L. rewrite Ow in L. apply L. unfold prepark. rewrite W. reflexivity.
+  - right. exists (ag o (ab (A s a))). split; assumption.
+Qed.
